@@ -15,9 +15,9 @@ import (
 
 func init() {
 	register(&propSpec{
-		ID:    "C03",
-		Level: "other",
-		Run:   runC03,
+		ID:          "C03",
+		Level:       "other",
+		Run:         runC03,
 		Explanation: "Structural rules over the pipelined variants: R03.1 who-may-write architectural state (Context.Registers/Memory are stored to only by non-scoreboard Context methods and by the variants' line write-back routines; Context writers are called only from write units, branch resolution and Run); R03.2 every write-unit commit is behind the sequence filter `execution.SequenceID > limit` with limit != -1, and from the variant where register results are renamed the write-unit step of a flush cycle receives the limit; R03.3 the pipeline flush reaches the flush/clean of every bus and unit (and bumps the sequence epoch where one is used); R03.4 before the flush, Run drains execute units holding older work with the limit installed and the execute unit's pre-step drops exactly the younger ones; R03.5 branch resolution: taken -> rollback with the branch's own id, not taken -> commit; R03.6 decode stalls after an unconditional jump until the target is reported; R03.7 stores reach a cache only sequence-guarded or gated on unresolved conditional branches; R03.8 the branch/memory classification tables agree with the opcode implementations; R03.10 the flush path contains no explicit panic. Does not decide that sequence ids order instructions correctly across loop iterations and epochs (a value question).",
 		Assumptions: []string{"sequence ids increase in program order within an epoch (not decided)"},
 		Trusted:     []string{"go/types", "role resolution (evidence.anchors)", "E-TERM opcode terms for the derived classification"},
